@@ -35,9 +35,11 @@ var restFixed = []string{
 	`bare | \e ;; \e ;; 5 ;; \e`,
 	`std | 5 ;; \e ;; (undefinedfn 1) ;; \e ;; 6`,
 	`std | (def a 0) @@ (for L1: [(def i 0) (< i 4) (set i (+ i 1))] (for [(def j 0) (< j 3) (set j (+ j 1))] (let [b 1] (cond (== j 1) (continue L1:) (== i 3) (break L1:) nil)) (set a (+ a 1)))) @@ a`,
-	`std | (defn va [a & l] (+ a (len l))) @@ (va 1) @@ (va 1 2 3)`,
+	`std | (defn va [a & l] (+ a (len l))) @@ (va 1) @@ (va 1 2 3) @@ (va 1 2 3 4 5 6 7 8) @@ (list 7 (va 1 2 3 4 5 6) 8)`,
+	`std | (defn vt [n & r] (cond (== n 0) (len r) (vt (- n 1) 1 2 3 4 5 6))) @@ (vt 3) @@ (vt 2 9 9 9 9 9 9 9)`,
 	`std | (def n 0) @@ (for [(def i 0) (< i 3) (set i (+ i 1))] (let [x 1] (cond (begin (set n (+ n 1)) (continue)) 1 2))) @@ n`,
 	`std | (for [(def i 0) (< i 3) (set i (+ i 1))] (let [x 1] (cond (break) 1 2)))`,
+	`std | (def g nil) @@ (for [(def i 0) (< i 2) (set i (+ i 1))] (set g (fn [] (cond true (break) 1)))) ;; (g) ;; 5`,
 	`std | (for [(def i 0) (< i 2) (set i (+ i 1))] (package "p" (def X 1) (continue)))`,
 	`std | (for [(def i 0) (< i 3) (set i (+ i 1))] (let [x 1] (newScope [1 2 (cond (== i 1) (continue) 3)] ^(1 ~(cond (== i 2) (break) 2)))))`,
 	`std | (defn cnt [n acc] (cond (== n 0) acc (cnt (- n 1) (+ acc 1)))) @@ (cnt 50 0)`,
@@ -344,7 +346,7 @@ func (r *rg) ie(d int) string {
 			}
 		case 13:
 			if len(r.vfns) > 0 {
-				n := 1 + r.rnd(3)
+				n := 1 + r.rnd(7) // up to six operands for the rest parameter
 				args := make([]string, n)
 				for i := range args {
 					args[i] = r.ie(d - 1)
@@ -876,7 +878,7 @@ func restStreams(g *Gen, emit func(mode string, texts [][]string, tag string)) {
 	restCtxStream(g, emit)
 	nCore, nFull, nMal, nRep := 250, 700, 300, 40
 	if g.Thorough() {
-		nCore, nFull, nMal, nRep = 3000, 12000, 4000, 300
+		nCore, nFull, nMal, nRep = 8000, 36000, 12000, 900
 	}
 	for i := 0; i < nCore; i++ {
 		e := &evg{g: g}
